@@ -13,6 +13,10 @@ CASES = [
  ('KF_nested_review_dup','{}', 'FALSE', 'Holds(V_C08_AtMostOne)', 0, '{"complete"}'),
  ('KF_back_enclosing',   '{}', 'FALSE', 'Holds(V_C03_CleanEnding)', 1, '{"complete","back"}'),
  ('F22_cancel_chain',    '{"F22"}', 'FALSE', 'Holds(V_C03_ParentDone)', 1, '{"complete","cancel","skip"}'),
+ # coverage targets (not defects of their own): rare histories that random runs seldom reach
+ # a task that had ended well is rewritten later (the store must follow: C11)
+ ('T_done_rewritten',    '{}', 'FALSE', 'Holds(V_C02_Lifecycle)', 2, '{"complete","back","error"}'),
+ ('T_done_rewritten_abort', '{}', 'FALSE', 'Holds(V_C02_Lifecycle)', 2, '{"complete","back","abort"}'),
 ]
 out=[]
 os.makedirs(V+'/.work/regress',exist_ok=True)
@@ -33,6 +37,8 @@ CONSTANTS
   MaxTime = 0
   Grid = {{0}}
   MaxInst = 2
+  Keep = TRUE
+  WithEvict = FALSE
 VIEW View
 INVARIANT RegressInv
 CONSTRAINT InstBound
